@@ -73,6 +73,7 @@ type consJ struct {
 	Nvh  string   `json:"nvh"`
 	Pt   *string  `json:"pt"`
 	Ph   []string `json:"ph"`
+	It   *string  `json:"it,omitempty"` // value stored under the iteration key of this height
 }
 
 type clientJ struct {
@@ -151,6 +152,10 @@ func (e *env) projClient(ctx sdk.Context, clientID string) clientJ {
 			}
 			if ph, ok := ibctm.GetProcessedHeight(store, c.Height); ok {
 				cj.Ph = eh(ph)
+			}
+			if it := ibctm.GetIterationKey(store, c.Height); it != nil {
+				v := hx.H(it)
+				cj.It = &v
 			}
 			out.Cons = append(out.Cons, cj)
 		}
